@@ -44,6 +44,8 @@ type c01Case struct {
 	// Tie selects the election-tie variant: 8 validator entities with EQUAL escrow, MaxValidators 3,
 	// no rewards, an election every 2 blocks (tie-breaks at the cutoff must not depend on map order).
 	Tie bool `json:"tie,omitempty"`
+	// Procs: every replica additionally has a twin in its own OS process (see c01proc.go).
+	Procs bool `json:"procs,omitempty"`
 	// informational
 	Height  int64    `json:"height,omitempty"`
 	Replica string   `json:"replica,omitempty"`
@@ -68,6 +70,8 @@ type c01Run struct {
 	blocks int
 	bg     bool
 	tie    bool
+	procs  bool
+	twins  []*twin
 	sum    *coqout.Summary
 	w      *coqout.Writer
 	rng    *prng.R
@@ -142,19 +146,22 @@ type violation struct {
 }
 
 func (c *c01Run) theCase() c01Case {
-	return c01Case{Seed: c.seed, Blocks: c.blocks, NoBackground: !c.bg, Tie: c.tie}
+	return c01Case{Seed: c.seed, Blocks: c.blocks, NoBackground: !c.bg, Tie: c.tie, Procs: c.procs}
+}
+
+func c01GenesisOpts(seed uint64, tie bool) muxdrv.GenesisOpts {
+	if tie {
+		return muxdrv.GenesisOpts{Validators: 8, Accounts: 10, EpochInterval: 2, EqualEscrow: 160_000,
+			MaxValidators: 3 + int(seed%2), NoRewards: true}
+	}
+	return muxdrv.GenesisOpts{Validators: 4, Accounts: 10, EpochInterval: int64(3 + seed%4)}
 }
 
 // run executes the history; it returns a violation or nil.
 func (c *c01Run) run() *violation {
 	c.rng = prng.New(c.seed ^ 0xc01c01)
 	var err error
-	opts := muxdrv.GenesisOpts{Validators: 4, Accounts: 10, EpochInterval: int64(3 + c.seed%4)}
-	if c.tie {
-		opts = muxdrv.GenesisOpts{Validators: 8, Accounts: 10, EpochInterval: 2, EqualEscrow: 160_000,
-			MaxValidators: 3 + int(c.seed%2), NoRewards: true}
-	}
-	c.g, err = muxdrv.NewGenesis(c.seed, opts)
+	c.g, err = muxdrv.NewGenesis(c.seed, c01GenesisOpts(c.seed, c.tie))
 	if err != nil {
 		return &violation{What: "genesis generation failed: " + err.Error(), Case: c.theCase()}
 	}
@@ -169,6 +176,26 @@ func (c *c01Run) run() *violation {
 		c.reps = append(c.reps, r)
 	}
 	defer c.close()
+	if c.procs {
+		for i, cfg := range cfgs {
+			t, err := startTwin(c.seed, c.tie, i, c.bg, cfg.Name)
+			if err != nil {
+				for _, t2 := range c.twins {
+					t2.close()
+				}
+				return &violation{What: "cannot start the process-separated replica: " + err.Error(), Case: c.theCase()}
+			}
+			c.twins = append(c.twins, t)
+		}
+		defer func() {
+			var ops int64
+			for _, t := range c.twins {
+				t.close()
+				ops += t.bg
+			}
+			c.sum.Extra["background_ops_in_child_processes"] = ops + toInt64(c.sum.Extra["background_ops_in_child_processes"])
+		}()
+	}
 	c.chain = muxdrv.NewChain(c.g)
 	c.newVal = muxdrv.NewValidator(c.seed, 0)
 
@@ -686,14 +713,14 @@ func (c *c01Run) block(b int) *violation {
 			ncfg := rp.Cfg
 			ncfg.MinGasPrice = uint64(r.Intn(3)) * 11
 			ncfg.PruneKeepN = uint64(1 + r.Intn(4))
-			if err := rp.Restart(&ncfg); err != nil {
+			if err := c.restart(i, &ncfg); err != nil {
 				return c.fail("restart of "+rp.Cfg.Name+" failed: "+err.Error(), h, i, desc, nil)
 			}
 			c.sum.Count("restarts", rp.Cfg.Name)
 		}
 	}
 
-	list, err := prop.Propose(in, cand)
+	list, err := c.propose(p, in, cand)
 	if err != nil {
 		return c.fail("PrepareProposal failed on the proposer: "+err.Error(), h, p, desc, nil)
 	}
@@ -703,7 +730,7 @@ func (c *c01Run) block(b int) *violation {
 	// proposer restarted between prepare and process: loses its cache, must re-execute.
 	propPath := "propose+cached"
 	if prop.Cfg.OnDisk && r.Chance(15) {
-		if err := prop.Restart(nil); err != nil {
+		if err := c.restart(p, nil); err != nil {
 			return c.fail("restart of proposer failed: "+err.Error(), h, p, desc, nil)
 		}
 		propPath = "propose+restart+process"
@@ -736,10 +763,10 @@ func (c *c01Run) block(b int) *violation {
 		switch path {
 		case "propose+cached", "propose+restart+process", "process":
 			c.decisionCase(rp, "process", in, list, desc, i)
-			res, err = rp.Process(in, list)
+			res, err = c.execOn(i, "process", in, list)
 		case "replay":
 			c.decisionCase(rp, "begin", in, list, desc, i)
-			res, err = rp.Replay(in, list)
+			res, err = c.execOn(i, "replay", in, list)
 		case "stale-propose+process", "stale-propose+replay":
 			// the replica first builds its OWN proposal for this height from a different tx set
 			// (an earlier round that failed), then gets the real block.
@@ -749,15 +776,15 @@ func (c *c01Run) block(b int) *violation {
 			if len(sub) > 0 {
 				sub = sub[:len(sub)/2]
 			}
-			if _, err = rp.Propose(&own, sub); err != nil {
+			if _, err = c.propose(i, &own, sub); err != nil {
 				return c.fail("stale PrepareProposal failed: "+err.Error(), h, i, desc, nil)
 			}
 			if path == "stale-propose+process" {
 				c.decisionCase(rp, "process", in, list, desc, i)
-				res, err = rp.Process(in, list)
+				res, err = c.execOn(i, "process", in, list)
 			} else {
 				c.decisionCase(rp, "begin", in, list, desc, i)
-				res, err = rp.Replay(in, list)
+				res, err = c.execOn(i, "replay", in, list)
 			}
 		case "stale-same-header+process":
 			// the replica prepared a proposal under the SAME header with the same number of
@@ -767,21 +794,21 @@ func (c *c01Run) block(b int) *violation {
 			for k := range cand {
 				alt[k] = muxdrv.FlipBit(cand[k], 8*len(cand[k])-1)
 			}
-			if _, err = rp.Propose(in, alt); err != nil {
+			if _, err = c.propose(i, in, alt); err != nil {
 				return c.fail("stale PrepareProposal failed: "+err.Error(), h, i, desc, nil)
 			}
 			c.decisionCase(rp, "process", in, list, desc, i)
-			res, err = rp.Process(in, list)
+			res, err = c.execOn(i, "process", in, list)
 		case "shadow-propose+process":
 			// the replica prepares the SAME content under the same header (signing the metadata
 			// with its own key): the metadata body must equal the proposer's.
-			own, err2 := rp.Propose(in, cand)
+			own, err2 := c.propose(i, in, cand)
 			if err2 != nil {
 				return c.fail("shadow PrepareProposal failed: "+err2.Error(), h, i, desc, nil)
 			}
 			metaBodies[i] = muxdrv.MetaBody(own)
 			c.decisionCase(rp, "process", in, list, desc, i)
-			res, err = rp.Process(in, list)
+			res, err = c.execOn(i, "process", in, list)
 		}
 		if err != nil {
 			return c.fail(fmt.Sprintf("block execution failed on path %s: %v", path, err), h, i, desc, nil)
@@ -957,6 +984,9 @@ func (c *c01Run) compareDumps(h int64, when string) *violation {
 			return c.fail(fmt.Sprintf("typed staking dumps of %s and %s differ %s %d", c.reps[0].Cfg.Name, rp.Cfg.Name, when, h), h, i, nil, nil)
 		}
 	}
+	if err := c.twinDumps(); err != nil {
+		return c.fail(err.Error(), h, -1, nil, nil)
+	}
 	c.sum.Count("state_dump_compared", "equal")
 	return nil
 }
@@ -1060,7 +1090,7 @@ func (c *c01Run) background(i int, stop chan struct{}, wg *sync.WaitGroup) {
 
 // ---------- entry point ----------
 
-func c01Main(seed uint64, out string, blocks, runs int, replay string, noBg bool, tieRuns, tieBlocks int) {
+func c01Main(seed uint64, out string, blocks, runs int, replay string, noBg bool, tieRuns, tieBlocks, procRuns int) {
 	sum := coqout.NewSummary("one evaluation = one block executed by one replica and compared; distinct_nontrivial = number of distinct (history, height) blocks that carry at least one user transaction, evidence, a non-unanimous vote pattern or an epoch transition (each executed on 4 replicas/paths)")
 	w := coqout.NewWriter(out, c01Header, "run_case", "coutput_eqb", 60)
 	var cases []c01Case
@@ -1084,14 +1114,17 @@ func c01Main(seed uint64, out string, blocks, runs int, replay string, noBg bool
 		cases = append(cases, cs)
 	} else {
 		for i := 0; i < runs; i++ {
-			cases = append(cases, c01Case{Seed: seed*1000 + uint64(i), Blocks: blocks, NoBackground: noBg})
+			cases = append(cases, c01Case{Seed: seed*1000 + uint64(i), Blocks: blocks, NoBackground: noBg, Procs: i < procRuns})
 		}
 		for i := 0; i < tieRuns; i++ {
-			cases = append(cases, c01Case{Seed: seed*1000 + 500 + uint64(i), Blocks: tieBlocks, NoBackground: noBg, Tie: true})
+			cases = append(cases, c01Case{Seed: seed*1000 + 500 + uint64(i), Blocks: tieBlocks, NoBackground: noBg, Tie: true, Procs: i < procRuns})
 		}
 	}
 	for _, cs := range cases {
-		run := &c01Run{seed: cs.Seed, blocks: cs.Blocks, bg: !cs.NoBackground, tie: cs.Tie, sum: sum, w: w}
+		run := &c01Run{seed: cs.Seed, blocks: cs.Blocks, bg: !cs.NoBackground, tie: cs.Tie, procs: cs.Procs, sum: sum, w: w}
+		if cs.Procs {
+			sum.Count("history_variant", "with-process-separated-twins")
+		}
 		if cs.Tie {
 			sum.Count("history_variant", "election-tie")
 		} else {
